@@ -92,3 +92,14 @@ Print Assumptions C17_clocks_round_trip.
 Theorem C17_alias_script_same_builder : forall l, run_builder (map alias_bop l) = run_builder l.
 Proof. exact alias_script_same_builder. Qed.
 Print Assumptions C17_alias_script_same_builder.
+
+From Muxide Require Export Model.Writer Model.Api Proofs.SinkProofs Proofs.HistoryProofs Proofs.SinkTypeProofs.
+(* SINK-TYPE independence, as far as a model can say it: any two sinks that never fail (whatever sequence of
+   short writes and Interrupted results they produce: Vec, Cursor, File, BufWriter, a socket-like trickle
+   sink are all instances of the Write contract modelled by sink scripts) receive the same bytes and the
+   caller sees the same results and statistics *)
+Theorem C17_any_two_benign_sinks_agree : forall b script1 script2 m1 m2 ops,
+  benign script1 -> benign script2 -> build b script1 = inl m1 -> build b script2 = inl m2 ->
+  snd (run m1 ops) = snd (run m2 ops) /\ sink_of (fst (run m1 ops)) = sink_of (fst (run m2 ops)).
+Proof. exact any_two_benign_sinks_agree. Qed.
+Print Assumptions C17_any_two_benign_sinks_agree.
